@@ -80,7 +80,7 @@ pub fn scope_arm(w: World, file: u8, kf_first: bool) {
     assume(w.layout_ok());
     for i in 0..w.defs.len() { for j in 0..i { assume(w.defs[i].line != w.defs[j].line); } }
     note!("order={:?} defs={:?}", w.order, w.defs.iter().map(|d| (d.file, d.name, d.line, d.scope, d.deps.clone())).collect::<Vec<_>>());
-    let db = build(&w, FULL);
+    let db = build(&w, DEFS_AND_FILE_DEFS);
     let got = db.detect_scope_mismatches_in_file(Path::new(path(file)));
     note!("reported={:?}", got.iter().map(|m| (m.fixture.line, m.dependency.line)).collect::<Vec<_>>());
     let probe = kf_first && crate::kf::C16_FIRST_DEFINITION_SCOPE;
@@ -126,6 +126,13 @@ fn d(w: &mut World, file: u8, name: &'static str, deps: &[&'static str]) -> usiz
     i
 }
 
+/// concrete line and scope (cycle arms whose verdict depends on neither; keeps the 3-name graphs within reach)
+fn dc(w: &mut World, file: u8, name: &'static str, deps: &[&'static str]) -> usize {
+    let l = 4 + 2 * w.defs.len();
+    let i = w.def(file, name, l);
+    w.defs[i].deps = deps.to_vec();
+    i
+}
 /// scope arms: concrete lines (4, 6, 8, ... in declaration order), symbolic scopes — the verdict depends on scopes only
 fn ds(w: &mut World, file: u8, name: &'static str, deps: &[&'static str]) -> usize {
     let l = 4 + 2 * w.defs.len();
@@ -144,7 +151,7 @@ macro_rules! c16_arm {
     };
 }
 
-/// @harness id=c16_cyc_self_loop props=C16,C12 tier=quick unwind=17 mem=10 cap=1500 term=1 unwindset=find_inner:3
+/// @harness id=c16_cyc_self_loop props=C16,C12 tier=quick unwind=17 mem=10 cap=3000 term=1 unwindset=find_inner:3
 /// one fixture `f(f)` with no parent anywhere: a genuine self-cycle, must be reported as f -> f.
 c16_arm!(c16_cyc_self_loop, { let mut w = World::new(&[C0]); d(&mut w, C0, "f", &["f"]); cycles_arm(w, false) });
 /// @harness id=c16_cyc_two_cycle props=C16,C12 tier=thorough unwind=17 mem=12 cap=1800 term=1 unwindset=find_inner:3
@@ -159,11 +166,18 @@ c16_arm!(c16_cyc_override_child_first, { let mut w = World::new(&[C1, C0]); d(&m
 /// @harness id=c16_cyc_branch_then_back_edge props=C16,C12 tier=thorough unwind=17 mem=14 cap=2400 term=1 unwindset=find_inner:3
 /// f(h, g), g(f), h(): the fixture closing the cycle lists a finished sibling branch before the back edge.
 c16_arm!(c16_cyc_branch_then_back_edge, { let mut w = World::new(&[C0]); d(&mut w, C0, "f", &["h", "g"]); d(&mut w, C0, "g", &["f"]); d(&mut w, C0, "h", &[]); cycles_arm(w, false) });
+/// @harness id=c16_cyc_branch_concrete props=C16,C12 tier=thorough unwind=17 mem=10 cap=3000 term=1
+/// f(h, g), g(f), h() in one conftest, lines and scopes concrete (the verdict depends on neither): the cycle f <-> g is
+/// reported and every reported path is a real closed chain (h is not on it).
+c16_arm!(c16_cyc_branch_concrete, { let mut w = World::new(&[C0]); dc(&mut w, C0, "f", &["h", "g"]); dc(&mut w, C0, "g", &["f"]); dc(&mut w, C0, "h", &[]); cycles_arm(w, false) });
+/// @harness id=c16_cyc_two_cycle_concrete props=C16,C12 tier=thorough unwind=17 mem=10 cap=3000 term=1
+/// C0: f(g), C1: g(f), lines and scopes concrete: the 2-cycle across files is reported.
+c16_arm!(c16_cyc_two_cycle_concrete, { let mut w = World::new(&[C0, C1]); dc(&mut w, C0, "f", &["g"]); dc(&mut w, C1, "g", &["f"]); cycles_arm(w, false) });
 /// @harness id=c16_cyc_unknown_dep props=C16 tier=quick unwind=17 mem=10 cap=1500 unwindset=find_inner:3
 /// f(x) where x is no fixture, g(f): no cycle.
 c16_arm!(c16_cyc_unknown_dep, { let mut w = World::new(&[C0]); d(&mut w, C0, "f", &["x"]); d(&mut w, C0, "g", &["f"]); cycles_arm(w, false) });
 
-/// @harness id=c16_scope_simple props=C16,C12 tier=thorough unwind=17 mem=12 cap=1200 unwindset=find_inner:3
+/// @harness id=c16_scope_simple props=C16 tier=thorough unwind=17 mem=12 cap=1200 unwindset=find_inner:3
 /// C0: f, g(f), all 25 scope pairs: warning iff scope(f) < scope(g).
 c16_arm!(c16_scope_simple, { let mut w = World::new(&[C0]); ds(&mut w, C0, "f", &[]); ds(&mut w, C0, "g", &["f"]); scope_arm(w, C0, false) });
 /// @harness id=c16_scope_two_levels_root_first props=C16,C08 tier=thorough unwind=17 mem=12 cap=1500 unwindset=find_inner:3
